@@ -24,10 +24,11 @@ timeout 1800 cargo test --workspace --no-fail-fast --offline $EXTRA 2>&1 | grep 
 echo "suite_with_exit=${PIPESTATUS[0]}"
 mv /tmp/seed_demo_$ID.rs tests/seed_demo.rs
 echo "== [3] demo WITHOUT the change (expected: passes)"
-git stash push -q -- src
+# (no `git stash`: the stash is shared by all worktrees of a repository)
+git checkout -- src
 timeout 900 cargo test --offline $EXTRA --test seed_demo 2>&1 | grep -E "^test |test result|panicked at" | head -20
 echo "demo_without_exit=${PIPESTATUS[0]}"
-git stash pop -q
+git apply $OUT/patch.diff
 git diff -- src | cmp -s - $OUT/patch.diff && echo "== change restored in worktree" || echo "!! worktree differs from stored patch"
 } > $OUT/confirm.log 2>&1
 grep -E "_exit=|restored|!!" $OUT/confirm.log
